@@ -26,6 +26,18 @@ RULES = [
      'outside the quantifier of C18: AXFR/IXFR/MAILA matching is not covered by the property (documented assumption)'),
     (r'dns/resource_record\.rs', r'out\.write_all\(&\[0, 1\]\)',
      'equivalent: placeholder bytes of RDLENGTH, overwritten by the back-patch'),
+    (r'dns/rdata/\w+\.rs', r'^\*position \+= \d+;$',
+     'equivalent since fix c0eaaa8: RData::parse re-synchronises the cursor to the end of RDLENGTH, the typed parser\'s own final advance is not observable'),
+    (r'rdata/caa\.rs', r'\*position \+ [01] >=? data\.len\(\)',
+     'equivalent: RDATA of length 0 never reaches the typed parser (it becomes the empty variant) and a one-byte CAA RDATA is rejected by the tag parser that follows'),
+    (r'rdata/(mx|afsdb|naptr)\.rs', r'\*position \+ \d+ > data\.len\(\)',
+     'equivalent: the fixed integers are followed by a name / strings that need at least one more byte, so an RDATA that ends right after them is rejected either way'),
+    (r'rdata/loc\.rs', r'if false && \(self\.version != 0',
+     'outside every property: refusing to WRITE a LOC value whose version was set to non-zero through the public field (C10 speaks about rejecting such encodings when parsing)'),
+    (r'rdata/null\.rs', r'MAX_NULL_LENGTH',
+     'outside DNS size limits: only NULL data of 65535 bytes or more behaves differently, which no message can carry'),
+    (r'dns/header_buffer\.rs', r'current_flags\.to_be_bytes\(\)|^\.get\([23]\.\.[345]\)$',
+     'dead code or equivalent: `set_flags` / `remove_flags` of header_buffer are pub(crate) and unused (allow(dead_code)); for the public peeks the same mutation is caught by C08 (see the DETECTED rows of this file)'),
     # ---- simple-mdns -----------------------------------------------------------------------------------------
     (r'resource_record_manager\.rs', r'should_refresh|refresh_at|ttl if ttl <|ttl / \d+ \* \d+|Authoritative => true', REFRESH),
     (r'service_discovery\.rs', r'channel\(11\)|recv_buffer = \[0u8; 9001\]', 'equivalent: buffer / channel capacity'),
